@@ -28,7 +28,39 @@ Definition expand (h : hop) : list op :=
       ++ map (fun i => OReq c (mid0 + nl + i) (RT 2 MEcho) (tag0 + nl + i)) (zseq 0 nf)
   end.
 
-Definition ops_of_hops (hs : list hop) : list op := flat_map expand hs.
+(* Data packets a client sends between a re-handshake and its ack are ignored by the server
+   before they become requests (session.go processPacket: status < working): [prep] removes
+   them from the history, everything else stays. *)
+Definition hop_conn (h : hop) : option Z :=
+  match h with
+  | H (OReq c _ _ _) | H (ONotify c _ _) | HBurst c _ _ _ _ _ => Some c
+  | _ => None
+  end.
+
+Definition hop_step (cs : alist conn) (h : hop) : alist conn :=
+  match h with H o => conn_step cs o | HBurst _ _ _ _ _ _ => cs end.
+
+(* cs: the connection table so far (a re-handshake only counts on an open connection) *)
+Fixpoint prep_from (cs : alist conn) (notready : list Z) (hs : list hop) : list hop :=
+  match hs with
+  | [] => []
+  | h :: r =>
+      match h with
+      | H (OHandshake c) =>
+          h :: prep_from cs (if is_open cs c then c :: notready else notready) r
+      | H (OAck c) => h :: prep_from cs (filter (fun x => negb (Z.eqb x c)) notready) r
+      | _ =>
+          match hop_conn h with
+          | Some c => if zmem c notready then prep_from cs notready r
+                      else h :: prep_from (hop_step cs h) notready r
+          | None => h :: prep_from (hop_step cs h) notready r
+          end
+      end
+  end.
+
+Definition prep (hs : list hop) : list hop := prep_from [] [] hs.
+
+Definition ops_of_hops (hs : list hop) : list op := flat_map expand (prep hs).
 
 Definition obs := (list (Z * list resp) * list (Z * Z))%type.
 Definition case := (list hop * obs)%type.
@@ -40,7 +72,7 @@ Definition hstep (s : st) (h : hop) : st :=
       pass itype0 (pass itype0 (fold_left (op_step rf0 itype0) (expand h) s))
   end.
 
-Definition model_obs (hs : list hop) : obs := observe (finish itype0 (fold_left hstep hs init)).
+Definition model_obs (hs : list hop) : obs := observe (finish itype0 (fold_left hstep (prep hs) init)).
 
 Definition conn_obs_eqb (a b : Z * list resp) : bool :=
   Z.eqb (fst a) (fst b) && mset_eqb resp_eqb (snd a) (snd b).
